@@ -68,7 +68,9 @@ func checkC06(c *Ctx, r *Report) {
 
 		// every non-context parameter is documented: body / form / parameters
 		ruleEach(c, r, "C06.a", gp,
-			func(fi *FuncInfo) func(ast.Expr) bool { return w.rangeOverField(fi, "definitions.RouteMetadata.FuncParams") }, "route.FuncParams",
+			func(fi *FuncInfo) func(ast.Expr) bool {
+				return w.rangeOverField(fi, "definitions.RouteMetadata.FuncParams")
+			}, "route.FuncParams",
 			func(fi *FuncInfo) func(ast.Node) bool {
 				calls := w.callPred(fi, crb, crf, crp)
 				return func(n ast.Node) bool { return calls(n) }
@@ -210,8 +212,10 @@ func checkC06(c *Ctx, r *Report) {
 	ruleNoReorder(c, r, "C06.a", "(*core/arbitrators.AstArbitrator).GetFuncParametersMeta", "GetFuncParametersMeta")
 	ruleNoReorder(c, r, "C06.a", "(*core/visitors.RouteVisitor).constructRouteMetadata", "constructRouteMetadata")
 	ruleEach(c, r, "C06.a", rred,
-		func(fi *FuncInfo) func(ast.Expr) bool { return w.rangeOverField(fi, "core/metadata.ReceiverMeta.Params") }, "m.Params",
-		func(fi *FuncInfo) func(ast.Node) bool { return w.appendTo(fi, identNamed("reducedParams")) }, "append(reducedParams)", nil, true,
+		func(fi *FuncInfo) func(ast.Expr) bool {
+			return w.rangeOverField(fi, "core/metadata.ReceiverMeta.Params")
+		}, "m.Params",
+		func(fi *FuncInfo) func(ast.Node) bool { return w.appendTo(fi, w.resultSlice(fi)) }, "append(reducedParams)", nil, true,
 		"every declared parameter is reduced and kept, in order")
 	routeT := w.lookupType("definitions", "RouteMetadata")
 	ruleFieldFlow(c, r, ffSpec{Clause: "C06.a", Fn: rred, Owner: routeT, Field: "FuncParams", Must: []string{"core/metadata.ReceiverMeta.Params"}, AllowedFields: []string{"*"}, AllowedCalls: []string{"*"}, Desc: "RouteMetadata.FuncParams is the reduced parameter list"})
@@ -224,8 +228,8 @@ func checkC06(c *Ctx, r *Report) {
 		}, "VisitField", nil, true,
 		"every declared parameter field is visited (in AST order; only exit: error)")
 	ruleEach(c, r, "C06.a", "(*core/arbitrators.AstArbitrator).GetFuncParametersMeta",
-		func(fi *FuncInfo) func(ast.Expr) bool { return identNamed("fields") }, "fields (names of one parameter field)",
-		func(fi *FuncInfo) func(ast.Node) bool { return w.appendTo(fi, identNamed("params")) }, "append(params)", nil, false,
+		func(fi *FuncInfo) func(ast.Expr) bool { return w.rangeOverType(fi, "[]core/metadata.FieldMeta") }, "fields (names of one parameter field)",
+		func(fi *FuncInfo) func(ast.Node) bool { return w.appendTo(fi, w.resultSlice(fi)) }, "append(params)", nil, false,
 		"every name of a parameter field yields one FuncParam, in order")
 
 	// responses producers
@@ -479,7 +483,9 @@ func checkResponses(c *Ctx, r *Report, ver, pkgRel, gcs string, respT, opT *type
 	o := r.add("C06.e", "fieldflow", gcs+":responses", ver+": responses = {success code -> success response} ∪ {each @ErrorResponse code -> error response}", []string{gcs}, sites, viol)
 	o.NonTrivial = true
 	ruleEach(c, r, "C06.e", gcs,
-		func(fi *FuncInfo) func(ast.Expr) bool { return w.rangeOverField(fi, "definitions.RouteMetadata.ErrorResponses") }, "route.ErrorResponses",
+		func(fi *FuncInfo) func(ast.Expr) bool {
+			return w.rangeOverField(fi, "definitions.RouteMetadata.ErrorResponses")
+		}, "route.ErrorResponses",
 		func(fi *FuncInfo) func(ast.Node) bool { return w.callPred(fi, pkgRel+".createErrorResponse") }, "createErrorResponse", nil, false,
 		ver+": every @ErrorResponse is documented")
 
@@ -573,7 +579,7 @@ func checkStatusRule(c *Ctx, r *Report) {
 	var sites []string
 	var hasRet *ssa.Parameter
 	for _, p := range fi.SSA.Params {
-		if p.Name() == "hasReturnValue" {
+		if paramTyped(p, "bool") {
 			hasRet = p
 		}
 	}
